@@ -66,7 +66,9 @@ def weight(op):
         return max(1, len(enum_tokens(t[2], int(t[-1]))))
     if t[0] == "dsplit":
         return 3 ** int(t[2])
-    if t[0] == "djoin":
+    if t[0] == "dsplitat":
+        return 3 ** int(t[3])
+    if t[0] in ("djoin", "djoinat"):
         return 7 ** int(t[2])
     if t[0] in ("dm", "dset"):
         return 64
@@ -75,7 +77,7 @@ def weight(op):
 
 def nontrivial(op, result):
     t = op.split()
-    if t[0] in ("d", "dsplit"):
+    if t[0] in ("d", "dsplit", "dsplitat"):
         return t[-1] != "0"
     if t[0] in ("s", "split"):
         return t[-1] != "-"
@@ -91,10 +93,16 @@ def refine(op):
         return [f"split {t[1]} {sh(s)}" for s in all_strings("abc", int(t[2]))]
     if t[0] == "djoin":
         return [" ".join(["joinstr", t[1], t[2]] + [sh(p) for p in tu]) for tu in piece_tuples(int(t[2]))]
+    if t[0] == "dsplitat":
+        return [f"splitat {t[1]} {t[2]} {sh(s)}" for s in all_strings("abc", int(t[3]))]
+    if t[0] == "djoinat":
+        return [" ".join(["joinstrat", t[1], t[2]] + [sh(p) for p in tu]) for tu in piece_tuples(int(t[2]))]
     if t[0] == "dm":
         return [" ".join(["m"] + t[1:] + [str(M)]) for M in range(64)]
     if t[0] == "dset":
         ml = lambda m: ",".join(str(i) for i in range(3) if (m >> i) & 1) or "-"
+        if t[1] in "NCnc":
+            return [f"setop {t[1]} {ml(n // 8)} {n % 4}" for n in range(64)]
         return [f"setop {t[1]} {ml(n // 8)} {ml(n % 8)}" for n in range(64)]
     return None
 
@@ -133,6 +141,16 @@ def fn_table():
         ("tpush", [3], ["t"]),
         # aliasing / references / arities
         ("removeat", [6], SQ),
+        ("containsat", [6], SQ + ["f", "s"]),
+        ("findoptat", [6], SQ + ["f", "s"]),
+        ("indexofat", [6], ["v", "d", "a"]),
+        ("eqrangeat", [6], SQ + ["s"]),
+        ("bsearchat", [6], SQ + ["s"]),
+        ("apushat", [5], ["a"]),
+        ("aappendself", [], ["a"]),
+        ("ajoinself", [], ["a"]),
+        ("tpushat", [2], ["t"]),
+        ("tconcatself", [], ["t"]),
         ("loopmut", [9], SQ + ["a"]),
         ("singular", [7, 7], SQ + ["s"]),
         ("singularc", [], SQ + ["s", "f"]),
@@ -183,6 +201,10 @@ VC_MAXLEN = {"vcjoin": None, "vcappend": 4, "vcpush": 3, "vcajoin": 3, "vcfrom":
 def max_len(k, fn, top):
     if fn in ("make", "ajoin4"):
         return 4
+    if fn in ("aappendself", "ajoinself"):
+        return 3
+    if fn == "tpushat":
+        return 2
     if fn == "vcmap" and k in ("a", "t"):
         return 3
     if k == "t":
@@ -297,6 +319,14 @@ def batches(rng, tier):
         for n in range(0, (4 if thorough else 3) + 1):
             ops.append(f"djoin {D} {n}")
     yield Batch("exh-strings", ops, exhaustive=True, note="split_string over {a,b,c}* (c = delimiter) incl. join_strings round trip; join_strings of up to 4 pieces of length <= 2")
+    ops = []
+    for ln in range(0, (7 if thorough else 5) + 1):
+        for I in range(0, max(ln, 1)):
+            ops += [f"dsplitat {K} {I} {ln}" for K in "sv"]
+    for n in range(0, (4 if thorough else 3) + 1):
+        ops += [f"djoinat {I} {n}" for I in range(0, max(n, 1))]
+    yield Batch("exh-strings-aliased", ops, exhaustive=True,
+                note="split_string(s, s[i]) and join_strings(r, r[i]): the delimiter is an element of the argument, every position i")
     # bisection beyond the exhaustive lengths: every sorted sequence over {0,1,2} up to length 16 (24)
     ops = []
     nmax = 24 if thorough else 16
@@ -321,7 +351,9 @@ def batches(rng, tier):
         ops += [f"dm contains {K}", f"dm findopt {K}", f"dm findit {K}"]
     ops += [f"dm insert {KV}" for KV in range(12)]
     ops += [f"dm valsref {D}" for D in range(3)]
-    ops += [f"dset {o}" for o in "UIDuidNC"]
+    for J in range(3):
+        ops += [f"dm {f} {J}" for f in ("getorinsat", "getorinsatv", "findmappedat", "containsat", "insertat")]
+    ops += [f"dset {o}" for o in "UIDuidNCnc"]
     yield Batch("exh-maps-sets", ops, exhaustive=True, note="all 64 maps {0,1,2}->{0,1,2} x keys / remove tables; all pairs of subsets of {0,1,2}")
     # scalars
     ops = [f"repeat {c}" for c in list(range(-3, 12)) + [100, 1000, -1000]]
